@@ -1,5 +1,5 @@
 // C18: deterministic single-thread scheduler around the real Application signal code.
-// Case:  nops op...  nans ans...  decision...
+// Case (direct mode):  nops op...  nans ans...  decision...
 //   op: 1 = blockSignals(), 2 = unblockSignals(false), 3 = unblockSignals(true), 4 = shutdown(false)
 //   ans: answers of onSignal in invocation order (1 = continue, 0 = stop; continue when exhausted)
 //   decision: consumed one per scheduling point (= before each atomic step of the running activation):
@@ -9,7 +9,23 @@
 //   3 callback exit, 4 read pending_, 5 write pending_, 6 dec; main flow: 7 block-inc, 8 unblock-dec,
 //   9 take pending_ (read / exchange), 10 clear pending_), "30 s" for an arrival, "20 s" / "21 ans" for callback
 //   entry / exit; k = 0 is the idle main flow after its last operation (the run ends when the decision there is 0).
+//
+// Case (OS-level modes):  -m mask  nops op...  nans ans...  [n1]  decision...
+//   The schedule runs inside a real Application::main() and an arrival is a real signal: raise(SIGINT/SIGTERM/SIGUSR1 for
+//   s = 1/2/3) with the handlers that main() installed (raise delivers synchronously on this thread).  The signal mask is
+//   cleared before every raise, so the disposition alone decides whether the OS calls the handler (no-mask semantics of
+//   Windows / System V signal(); with the BSD mask of glibc's signal() the kernel would hold a same-number arrival
+//   pending until the handler returns instead of discarding it).
+//   m = 1: inside the first main(); m = 2: inside a second main() after an empty first run; m = 3: the first main() runs
+//   the flow with the first n1 decisions, a second main() on the same object runs the same flow with the rest.
+//   mask: bit s-1 set = signal s is ignored (SIG_IGN) by the environment before the first main().
+//   Extra observation: after every "k blocked_ pending_" record "40 d1 d2 d3" = disposition of the three registered
+//   signals as sigaction() reports it (0 default, 1 Application::sigHandler, 2 ignored, 3 other); after "30 s":
+//   "31 s" = the OS did not call the handler (discarded), "32 s" = not a registered signal (not raised),
+//   "33 s" = disposition is not handler/ignore (not raised: it would kill the harness); "41 d1 d2 d3" after main() returned.
+//   Signal numbers are printed as case ids (callback argument, pending_).
 #include "common.h"
+#include <signal.h>
 #define private public
 #define protected public
 #include <potassco/application.h>
@@ -24,9 +40,34 @@ struct App;
 static App* app = 0;
 static void yieldPoint(int k);
 
+static int  osMode = 0;                 // 0 = direct mode
+static const int REAL[4] = { 0, SIGINT, SIGTERM, SIGUSR1 };
+static ll   decLeft = -1;               // decisions left for this run (-1 = no bound)
+static unsigned long entered = 0;       // number of processSignal activations started so far
+static ll toId(long real) {
+	if (!osMode || real == 0) return real;
+	for (int i = 1; i <= 3; ++i) { if (REAL[i] == real) return i; }
+	return 1000 + real;
+}
+static int dispCode(int sig) {
+	struct sigaction old; std::memset(&old, 0, sizeof(old));
+	if (sigaction(sig, 0, &old) != 0) return 3;
+	if (old.sa_handler == SIG_IGN) return 2;
+	if (old.sa_handler == SIG_DFL) return 0;
+	return old.sa_handler == &Potassco::Application::sigHandler ? 1 : 3;
+}
+static void printDisp(int tag) { o.add(tag); for (int i = 1; i <= 3; ++i) o.add(dispCode(REAL[i])); }
+static void clearMask() {
+	sigset_t m; sigemptyset(&m);
+	for (int i = 1; i <= 3; ++i) sigaddset(&m, REAL[i]);
+	sigprocmask(SIG_UNBLOCK, &m, 0);
+}
+static void setAll(void (*h)(int)) { for (int i = 1; i <= 3; ++i) signal(REAL[i], h); }
+
 struct App : public Potassco::Application {
 	const char* getName()    const { return "h_c18"; }
 	const char* getVersion() const { return "0"; }
+	const int*  getSignals() const { static const int s[] = { SIGINT, SIGTERM, SIGUSR1, 0 }; return s; }
 	void initOptions(Potassco::ProgramOptions::OptionContext&) {}
 	void validateOptions(const Potassco::ProgramOptions::OptionContext&, const Potassco::ProgramOptions::ParsedOptions&, const Potassco::ProgramOptions::ParsedValues&) {}
 	void setup() {}
@@ -39,7 +80,7 @@ struct App : public Potassco::Application {
 	void run() { if (active) { execOps(); } }
 	void info(const char*) const {}
 	bool onSignal(int s) {
-		o.add(20); o.add(s);
+		o.add(20); o.add(toId(s));
 		yieldPoint(3);
 		bool a = ansPos < answers.size() ? answers[ansPos++] != 0 : true;
 		o.add(21); o.add(a ? 1 : 0);
@@ -48,14 +89,28 @@ struct App : public Potassco::Application {
 };
 
 static bool recording = true;
+static ll nextDecision() {
+	if (decLeft == 0) return 0;
+	if (decLeft > 0) --decLeft;
+	return cur->next(); // 0 when exhausted
+}
 static void yieldPoint(int k) {
+	if (k == 1) ++entered;
 	if (!recording) return;
 	for (;;) {
-		o.add(k); o.add(app->blocked_); o.add(app->pending_);
-		ll d = cur->next(); // 0 when exhausted
+		o.add(k); o.add(app->blocked_); o.add(toId(app->pending_));
+		if (osMode) printDisp(40);
+		ll d = nextDecision();
 		if (d == 0) return;
 		o.add(30); o.add(d);
-		app->processSignal(static_cast<int>(d));
+		if (!osMode) { app->processSignal(static_cast<int>(d)); continue; }
+		if (d < 1 || d > 3) { o.add(32); o.add(d); continue; }
+		int dc = dispCode(REAL[d]);
+		if (dc != 1 && dc != 2) { o.add(33); o.add(d); continue; }
+		unsigned long before = entered;
+		clearMask();
+		raise(REAL[d]);                      // the real entry point: the OS calls Application::sigHandler, or discards the signal
+		if (entered == before) { o.add(31); o.add(d); }
 	}
 }
 
@@ -77,25 +132,59 @@ void App::execOps() {
 int main() {
 	Case c;
 	Potassco::verifYieldHook_g = &yieldPoint;
+	char name[] = "h_c18"; char* argv[] = { name, 0 };
 	while (readCase(c)) {
-		cur = &c;
+		cur = &c; osMode = 0; decLeft = -1; recording = false;
+		setAll(SIG_DFL); clearMask();   // cases are independent
+		ll mask = 0;
+		bool bad = false;
+		if (!c.v.empty() && c.v[0] < 0) {
+			if (c.v.size() < 3 || c.v[0] < -3) { bad = true; }
+			else { osMode = static_cast<int>(-c.next()); mask = c.next(); }
+		}
+		if (bad) { o.add(-3); o.flush(); continue; }
 		std::vector<ll> ops;
 		for (ll n = c.next(); n > 0 && c.more(); --n) ops.push_back(c.next());
 		answers.clear(); ansPos = 0;
 		for (ll n = c.next(); n > 0 && c.more(); --n) answers.push_back(c.next());
 		try {
 			App a; app = &a; a.ops = &ops;
-			ll h = 0; for (size_t i = 0; i != c.v.size(); ++i) h += c.v[i];
-			if ((h & 1) == 0) { recording = true; a.execOps(); }
+			if (osMode == 0) {
+				ll h = 0; for (size_t i = 0; i != c.v.size(); ++i) h += c.v[i];
+				if ((h & 1) == 0) { recording = true; a.execOps(); }
+				else {
+					recording = false; a.active = false; a.main(1, argv);   // a complete first run (its shutdown takes a block)
+					recording = true;  a.active = true;  a.main(1, argv);   // the schedule runs inside the second run
+					recording = false;
+				}
+			}
 			else {
-				char name[] = "h_c18"; char* argv[] = { name, 0 };
-				recording = false; a.active = false; a.main(1, argv);   // a complete first run (its shutdown takes a block)
-				recording = true;  a.active = true;  a.main(1, argv);   // the schedule runs inside the second run
-				recording = false;
+				for (int i = 1; i <= 3; ++i) signal(REAL[i], ((mask >> (i - 1)) & 1) ? SIG_IGN : SIG_DFL);   // what the environment left
+				if (osMode == 1) {
+					recording = true; a.active = true; a.main(1, argv); recording = false;
+					printDisp(41);
+				}
+				else if (osMode == 2) {
+					recording = false; a.active = false; a.main(1, argv);
+					recording = true;  a.active = true;  a.main(1, argv); recording = false;
+					printDisp(41);
+				}
+				else {
+					ll n1 = c.next(); if (n1 < 0) n1 = 0;
+					size_t p0 = c.p;
+					decLeft = n1;
+					recording = true; a.active = true; a.main(1, argv); recording = false;
+					printDisp(41);
+					c.p = (n1 < static_cast<ll>(c.v.size() - p0)) ? p0 + static_cast<size_t>(n1) : c.v.size();
+					decLeft = -1;
+					recording = true; a.main(1, argv); recording = false;
+					printDisp(41);
+				}
 			}
 			app = 0;
 		}
 		catch (...) { o.add(-1); }
+		setAll(SIG_DFL);
 		o.flush();
 	}
 	return 0;
